@@ -22,10 +22,16 @@ MANIFEST = dict(cat=LEVEL, ref="DESIGN.md 3.3, 6 (C38)",
     note="one shared table page (two rows); index and overflow pages are outside this model (their absence from the log is the C01 finding power:...:index); group commit enabled (default); statements run to completion between schedule points")
 
 
-def predicted_ok(c):
+def predicted_ok(c, done=None):
     # after a process kill the page in the mapping survives: recovery gives the last logged image, or - with an
     # empty log - the in-place image. (The power-loss reading, Covered, is model-checked only.)
-    return bool(c["killok"])
+    # `done`: the committers whose COMMIT has returned on the real code. A COMMIT with nothing to log returns at the
+    # capture point already (the model's Submit step of an empty payload is not a separate real step), so the
+    # model's formula is evaluated over the observed set.
+    if done is None:
+        return bool(c["killok"])
+    newest = c["log"][-1] if c["log"] else c["ver"]
+    return all(newest >= c["mine"][t - 1] for t in done)
 
 
 def run(chk):
@@ -88,14 +94,15 @@ def run(chk):
             continue
         got = {x[0]: x[1] for x in rec["rows"]}
         lost = sorted(t for t in r["done"] if got.get(t) != r["values"].get(str(t)))
+        ok_pred = predicted_ok(c, r["done"])
         if not lost:
-            if predicted_ok(c):
+            if ok_pred:
                 stats["ok_as_predicted"] += 1
             else:
                 # the model predicts a stale image but the real rows are fine: tolerated only if the real log order differs
                 chk.stale.append("schedule %s: model predicts a lost committed image, the real recovery is correct" % (sched,))
             continue
-        if predicted_ok(c):
+        if ok_pred:
             chk.violation("committed_update_lost_after_recovery:%s" % ("overlapping" if c["overlap"] else "serial"), rep)
         else:
             stats["finding_as_predicted"] += 1
